@@ -58,7 +58,9 @@ impl Api {
     }
     fn boxed_twin(self) -> Option<Api> {
         match self {
-            Api::UintRandomBits | Api::UintRandomBitsPrec => Some(Api::BoxedRandomBitsPrec),
+            // the signed fixed-width integer is a fixed integer of that width like any other: same API family
+            // (`random_bits`), same bits from the same stream
+            Api::UintRandomBits | Api::UintRandomBitsPrec | Api::IntRandomBits | Api::IntRandomBitsPrec => Some(Api::BoxedRandomBitsPrec),
             Api::UintRandomMod => Some(Api::BoxedRandomMod),
             _ => None,
         }
@@ -749,7 +751,7 @@ fn exec_one(p: &Plan, out: &mut RunOut, replay_plan: Option<serde_json::Value>) 
     if p.compare_boxed {
         if let Some(twin) = api.boxed_twin() {
             let fixed_bits = 64 * p.limbs as u32;
-            if api != Api::UintRandomBitsPrec || p.precision == fixed_bits {
+            if !matches!(api, Api::UintRandomBitsPrec | Api::IntRandomBitsPrec) || p.precision == fixed_bits {
                 let mut q = p.clone();
                 q.precision = fixed_bits;
                 let (ob, _) = observe(&q, twin, &p.tape);
